@@ -18,6 +18,10 @@ CHECKS = {
    text="A seeded tree is offered as source by a host directory, by fat32/ext4/iso9660 Rock Ridge/squashfs images on simulated devices, or by an in-memory fs.FS whose files return legal short reads (1-byte and odd pieces, (n,EOF), one (0,nil)); CopyFileSystem copies it into fat12/16/32 and ext4 volumes; when it returns nil the reopened destination is compared with the tree by an independent walker (no excluded names copied, nothing missing or extra, contents equal). CompareFS must return nil on the faithful copy and an error for each single-point mutation presented through overlay filesystems (byte changed at first/middle/last position, content one byte longer/shorter, size +-1, entry missing, extra file, extra directory, file became directory) and for one stored data byte flipped on the destination device; thorough adds a file above the 64 MiB streaming threshold from a zero-generating source.",
    note="Seeded sampling over trees and pairings. Names are legal for the destination; dot-file naming on ISO sources is left to C06. A copy that returns an error is not judged.",
    technique=TECH+"stream fault injection (legal short reads) + single-point mutation overlays + stored-byte flip, independent tree diff"),
+ "C19": dict(level="exploration", design="§5 C19",
+   text="Four workloads: (ext4) seeded histories biased to Chmod (all 12 bits), Chown (0, 65535, 65536, 2^32-2, -1 = keep), Chtimes (1901..2100 with nanoseconds) and Symlink (1..1000 bytes, around the 59/60 inline limit) interleaved with content writes, every attribute of every entry compared with a reference model live and after re-opening from the device bytes, e2fsck as second opinion; (fat12/16/32) histories of Chtimes (1980..2107, odd seconds), SetHidden/SetSystem/SetReadOnly/SetArchiveBit on files and directories interleaved with writes, every attribute of every entry compared after each step on a re-opened image (a change to one attribute must change nothing else; kinds never swap); (squashfs, iso9660 Rock Ridge) a workspace whose entries get seeded modes incl. setuid/setgid/sticky, uids/gids over the 16/32-bit ranges, mtimes before 1970 (Rock Ridge) and after 2038, symlink targets of 1..4095 bytes (one long component or path-like, relative/absolute), finalized onto the simulated device, re-opened and compared through Stat/ReadLink/Sys.",
+   note="Seeded sampling of attribute values and histories; no fault or schedule dimension beyond reopen-from-bytes (the squashfs/ISO parts are input-driven). squashfs times are 1970..2106 (unsigned 32-bit field). Empty path components ('//') in link targets are not generated.",
+   technique=TECH+"seeded attribute histories vs reference model with reopen-from-bytes; workspace metadata round trip through Finalize"),
  "C18": dict(level="fault_enumeration", design="§5 C18",
    text="Per base image of every filesystem kind (fat12/16/32, ext4 written by the library and by mke2fs, iso9660 plain/Rock Ridge/Joliet, squashfs with several compressors/options), built deterministically on the simulated device: (a) the structural field map of the format (BPB/FSInfo fields, FAT entries incl. self/back links and out-of-range, directory entries; ext4 superblock, group descriptors, inodes, extent headers and entries, directory entries; ISO volume descriptors, root/directory records, path table entries; squashfs superblock fields, table pointers, metadata headers) x boundary values is enumerated; (b) seeded blind pokes of 1/2/4/8 bytes inside the writer's metadata extents (file payload excluded; 300 per image quick, 4000 thorough); (c) device truncation at structure boundaries. Each damaged image is opened, walked and every file Stat-ed and read through a bounded reader under a device-read budget (ReadAt raises once exceeded, which breaks endless read loops), a per-request size bound and a CPU-time bound, with the worker under RLIMIT_AS and its death or hang attributed to the case through a shared-memory marker.",
    note="Field map enumeration is complete per base image; blind pokes are a seeded sample. Budgets: max(20000, 1000x baseline) device reads, request <= 64x image + 1 MiB, 10 s CPU (a timing overrun must reproduce in a fresh process). Returned data is not judged.",
